@@ -26,6 +26,8 @@ _DEST_L, _FILTER_L, _SUB_L = DEST_CN.lower(), FILTER_CN.lower(), SUB_CN.lower()
 # --------------------------------------------------------------------------- the real world
 
 _SRV = {}
+NS_WITH_CLASSES, NS_NO_CLASSES = 'root/cimv2', 'root/empty'
+DEFAULT_NS = ['interop', NS_WITH_CLASSES, NS_NO_CLASSES]
 
 
 def _mock_dict():
@@ -70,6 +72,16 @@ def server(k):
                 from tests.unittest.utils.wbemserver_mock import WbemServerMock
                 m = WbemServerMock(interop_ns='interop', server_mock_data=_mock_dict(),
                                    url='http://srv%d:5988' % k)
+                # the connection's default namespace is a user choice (a generated dimension): besides Interop
+                # there is a namespace that has the three subscription classes too and one that has no classes
+                from tests.unittest.utils.dmtf_mof_schema_def import DMTF_TEST_SCHEMA_VER, DMTFCIMSchema
+                conn = m.wbem_server.conn
+                schema = DMTFCIMSchema(DMTF_TEST_SCHEMA_VER, os.path.join('tests', 'schema'), use_experimental=False,
+                                       verbose=False)
+                conn.add_namespace(NS_WITH_CLASSES)
+                conn.compile_schema_classes([SUB_CN, DEST_CN, FILTER_CN], schema.schema_pragma_file,
+                                            namespace=NS_WITH_CLASSES, verbose=False)
+                conn.add_namespace(NS_NO_CLASSES)
             _SRV[k] = m.wbem_server
         finally:
             os.chdir(cwd)
@@ -138,10 +150,14 @@ def pkey(p):
 class Real:
     """executes concrete ops (the JSON the model gets, plus raw strings) on the real code"""
 
-    def __init__(self, nsrv, static, urls):
+    def __init__(self, nsrv, static, urls, defns=None):
         import pywbem
         self.nsrv = nsrv
         self.srv = [server(k) for k in range(nsrv)]
+        for k, srv in enumerate(self.srv):
+            # default namespace of the connection for this case (every manager call names the Interop namespace
+            # explicitly, so the choice must not matter)
+            srv.conn.default_namespace = (defns or [])[k] if defns and k < len(defns) else 'interop'
         self.urls = urls                      # normalised URL -> token
         self.mgrs = []                        # manager objects by model index
         self.alive = []
@@ -181,15 +197,19 @@ class Real:
 
     # ---- canonical forms
     def dest_json(self, inst):
+        if inst is None:                         # junk the caller put into a list it got back (see 'scribble')
+            return ['<junk>', -1, -1, None]
         pt = inst.properties.get('PersistenceType')
         return pkey(inst.path) + [self.urls.get(inst['Destination'], -1), None if pt is None else int(pt.value)]
 
     @staticmethod
     def filt_json(inst):
-        return pkey(inst.path)
+        return ['<junk>', -1] if inst is None else pkey(inst.path)
 
     @staticmethod
     def sub_json(inst):
+        if inst is None:
+            return ['<junk>', -1, '<junk>', -1]
         return pkey(inst.path.keybindings['Filter']) + pkey(inst.path.keybindings['Handler'])
 
     def snapshot(self):
@@ -313,6 +333,12 @@ class Real:
                     dp = mkpath(DEST_CN, common.from_cps(sel['one'][0]), sel['one'][1])
                 else:
                     dp = [mkpath(DEST_CN, common.from_cps(p[0]), p[1]) for p in sel['many']]
+                if op.get('each'):
+                    # the caller's idiom "remove everything I own": loop over the RETURNED list while removing
+                    # (equals remove_destinations(list of the owned paths) when the returned list is a copy)
+                    for inst in mg.get_owned_destinations(sid):
+                        mg.remove_destinations(sid, inst.path)
+                    return {'ok': None}
                 mg.remove_destinations(sid, dp)
                 return {'ok': None}
             if o == 'removeFilter':
@@ -323,6 +349,10 @@ class Real:
 
                 def sp(x):
                     return subpath((common.from_cps(x[0][0]), x[0][1]), (common.from_cps(x[1][0]), x[1][1]))
+                if op.get('each'):
+                    for inst in mg.get_owned_subscriptions(sid):
+                        mg.remove_subscriptions(sid, inst.path)
+                    return {'ok': None}
                 mg.remove_subscriptions(sid, sp(sel['one']) if 'one' in sel else [sp(x) for x in sel['many']])
                 return {'ok': None}
             if o in ('getOwned', 'getAll'):
@@ -330,7 +360,18 @@ class Real:
                 name = {'d': 'destinations', 'f': 'filters', 's': 'subscriptions'}[w]
                 cv = {'d': self.dest_json, 'f': self.filt_json, 's': self.sub_json}[w]
                 r = getattr(mg, ('get_owned_' if o == 'getOwned' else 'get_all_') + name)(sid)
-                return {'ok': {w.upper(): [cv(i) for i in r]}}
+                out = {'ok': {w.upper(): [cv(i) for i in r]}}
+                # the returned list belongs to the caller: it edits it (the manager's bookkeeping must not notice)
+                how = op.get('scribble')
+                if how == 'clear':
+                    del r[:]
+                elif how == 'pop' and r:
+                    r.pop()
+                elif how == 'junk':
+                    r.insert(0, None)
+                elif how == 'reverse':
+                    r.reverse()
+                return out
         except Exception as e:  # noqa
             return common.exc_json(e)
         raise ValueError(op)
@@ -831,6 +872,8 @@ class Gen:
         self.mgr_ids = []       # index -> id (successfully created)
         self.alive = []
         self.script = []
+        self.defns = [rng.choice(['interop', 'interop', NS_WITH_CLASSES, NS_WITH_CLASSES, NS_NO_CLASSES])
+                      for _ in range(2)]
         if mode == 'cross' and rng.random() < 0.6:
             self.directed_cross()
 
@@ -886,7 +929,7 @@ class Gen:
 
     def case(self, ops):
         return {'nsrv': self.nsrv, 'static': self.static, 'ops': ops, 'mode': self.mode,
-                'urls': self.urls}
+                'urls': self.urls, 'defns': self.defns}
 
     def pick_path(self, snap, k, cls, i, own_bias=0.6):
         """a path of class cls in server k: preferably one this manager may touch in the current mode"""
@@ -977,6 +1020,10 @@ class Gen:
                 sel = {'many': [self.enc(d) for d in ds]}
             return {'op': 'addSubs', 'm': m, 's': s, 'f': self.enc(f), 'sel': sel, 'owned': owned}
         if r == 'removeDests':
+            mine = self.owned_list(snap, m, s, 'od')
+            if mine and rng.random() < 0.15:
+                return {'op': 'removeDests', 'm': m, 's': s, 'each': True,
+                        'sel': {'many': [self.enc(tup(x)) for x in mine]}}
             p = self.pick_removable(snap, s, 'd', i)
             if rng.random() < 0.75:
                 sel = {'one': self.enc(p)}
@@ -989,12 +1036,26 @@ class Gen:
             def one():
                 x = self.pick_removable_sub(snap, s, i)
                 return [self.enc(x[0]), self.enc(x[1])]
+            mine = self.owned_list(snap, m, s, 'os')
+            if mine and rng.random() < 0.15:
+                return {'op': 'removeSubs', 'm': m, 's': s, 'each': True,
+                        'sel': {'many': [[self.enc(tuple(x[0:2])), self.enc(tuple(x[2:4]))] for x in mine]}}
             if rng.random() < 0.75:
                 sel = {'one': one()}
             else:
                 sel = {'many': [one() for _ in range(rng.randint(0, 3))]}
             return {'op': 'removeSubs', 'm': m, 's': s, 'sel': sel}
-        return {'op': rng.choice(['getOwned', 'getAll']), 'm': m, 's': s, 'which': rng.choice('dfs')}
+        return {'op': rng.choice(['getOwned', 'getOwned', 'getAll']), 'm': m, 's': s, 'which': rng.choice('dfs'),
+                'scribble': rng.choice([None, 'clear', 'pop', 'junk', 'reverse'])}
+
+    @staticmethod
+    def owned_list(snap, m, s, key):
+        for mg in snap['mgrs']:
+            if mg['m'] == m:
+                for r in mg['regs']:
+                    if r['s'] == s and r[key] != 'KeyError':
+                        return r[key]
+        return []
 
     def gen_add_dest(self, m, s, i):
         rng, cps = self.rng, common.cps
@@ -1115,7 +1176,7 @@ def model_op(op):
     if op['op'] == 'removeAll' and op.get('exit'):
         how = op['exit']
         return {'op': 'exitCtx', 'm': op['m'], 'exc': None if how in (True, 'normal') else EXIT_EXCS.index(how)}
-    return {k: v for k, v in op.items() if k not in ('rawurl', 'restart', 'exit', 'srcns', 'ql')}
+    return {k: v for k, v in op.items() if k not in ('rawurl', 'restart', 'exit', 'srcns', 'ql', 'each', 'scribble')}
 
 
 def generate_and_run(seed_mode):
@@ -1123,7 +1184,7 @@ def generate_and_run(seed_mode):
     seed, mode, thorough = seed_mode
     rng = random.Random(seed)
     g = Gen(rng, mode, thorough)
-    real = Real(g.nsrv, g.static, g.urls)
+    real = Real(g.nsrv, g.static, g.urls, g.defns)
     snap = real.snapshot()
     ops, steps = [], []
     case = g.case(ops)
@@ -1169,7 +1230,7 @@ def generate_and_run(seed_mode):
 def execute(case):
     """re-run a concrete case (replay)"""
     urls = dict(case.get('urls', {}))
-    real = Real(case['nsrv'], case['static'], urls)
+    real = Real(case['nsrv'], case['static'], urls, case.get('defns'))
     snap = real.snapshot()
     orc = Oracle(case, snap)
     steps = []
@@ -1268,6 +1329,8 @@ def do_cases(run, seeds):
         run.case({'nsrv': case['nsrv'], 'static': case['static'], 'ops': case['ops']}, nontrivial=created)
         run.count('mode:' + case['mode'])
         run.count('servers:%d' % case['nsrv'])
+        for dn in case.get('defns', [])[:case['nsrv']]:
+            run.count('default_namespace:' + dn)
         for op, st in zip(case['ops'], steps):
             r = st['res']
             run.count('op:%s:%s' % (op['op'], 'ok' if 'ok' in r else r.get('exc', '?') + str(r.get('code', ''))))
@@ -1343,7 +1406,7 @@ def run(run):
     rng = run.rng
     n = 16000 if run.thorough else 1600
     run.rule = ('seeded random histories of 8..22 (thorough 30) manager calls on 1-2 mock WBEM servers (Interop namespace, '
-                'the three subscription providers, random static filters/destinations/subscriptions incl. names that look '
+                'the three subscription providers, the connection default namespace = Interop / another namespace with the subscription classes / one without any class, random static filters/destinations/subscriptions incl. names that look '
                 'like markers) with 1-3 live manager objects whose ids come from one confusable family (regex '
                 'metacharacters, prefixes, case variants, empty, non-ASCII), owned/permanent add_destination/add_filter/'
                 'add_subscriptions (None / one / list of destinations), removals in any order, remove_server, '
